@@ -23,12 +23,20 @@ RULE = ('one case = one generated program: a signature of <= 3 (thorough 4) para
         'method; every program is driven with all positional lists of length 0..5 and all named mappings over subsets of '
         '(parameter names + an unknown name + the context name). Each (program, params) pair is one evaluation; distinct '
         '= distinct (signature, context placement, mode, style, params); non-trivial = all of them (every pair is a '
-        'different binding problem). All generated functions share one __module__ and __qualname__ on purpose.')
+        'different binding problem). All generated functions share one __module__ and __qualname__ on purpose. The object '
+        'the server hands to dispatch(context=...) varies per call (a function of the program, so replayable): half of the '
+        'calls the customary truthy request object, 7 in 16 a real but FALSY object ({}, [], (), set(), "", b"", 0, 0.0, '
+        'False, an object whose __len__ is 0, an object whose __bool__ is False - fresh per call, checked by identity), '
+        '1 in 16 None.')
 ASSUMPTIONS = [
     'admissibility (is there any Python call that passes the context in the configured mode and binds like the twin?) is a '
     'syntactic rule independent of pjrpc; inadmissible (program, params) pairs are skipped and counted',
     'when the client names the context parameter and the signature has **kw only "never runs with a foreign context" is judged',
     'argument values are JSON scalars/containers; the twin is called with the values json.loads yields',
+    'whether None is a context object or the absence of one is left open by the statement: with context=None only "never a '
+    'foreign context" (and no exception / readable response) is judged for methods that designate a context, counted as unjudged',
+    'a violation seen with a falsy / None context is re-evaluated once with the truthy object for its NAME only (prefix '
+    '"only-when-server-context-is-falsy:" when the truthy run does not show the same mechanism); the verdict is the first run\'s',
 ]
 SHARDS = {'quick': 4, 'thorough': 16}
 TIMEOUT = {'quick': 400, 'thorough': 2400}
@@ -47,10 +55,60 @@ FLOORS = {'*': {
     'style:async-wrapped': 100, 'validator:pydantic': 50, 'validator:pydantic:ignore': 20, 'validator:pydantic:allow': 20, 'validator:base-with-exclude_param': 300, 'validator:jsonschema-permissive': 300,
     'style:def': 300, 'style:async': 300, 'style:async-plain': 300, 'client-names-context': 100,
     'context-identity-checked': 500, 'dual-registration-calls': 500,
+    # the kind of object the server hands over as the context (half of the calls: a real but FALSY object)
+    'server-context:object': 100000, 'server-context:falsy': 50000, 'server-context:none': 5000,
+    'server-context:empty-dict': 5000, 'server-context:empty-list': 5000, 'server-context:empty-tuple': 5000,
+    'server-context:empty-set': 5000, 'server-context:empty-str': 5000, 'server-context:empty-bytes': 5000,
+    'server-context:zero': 5000, 'server-context:zero-float': 5000, 'server-context:false': 5000,
+    'server-context:len-0-object': 5000, 'server-context:bool-false-object': 5000,
+    'falsy-context-identity-checked:name': 1000, 'falsy-context-identity-checked:positional': 500,
+    'falsy-context-identity-checked:view': 20000,
 }}
 
 KINDS_ = ('PO', 'PK', 'KO', 'VA', 'VK')
 MODULE_NAME = 'vmon_c04_programs'
+
+
+class _Len0:
+    """e.g. a per-connection session store nobody has written to yet: a real object whose len() is 0"""
+
+    def __len__(self):
+        return 0
+
+
+class _BoolFalse:
+    """e.g. a request wrapper that answers `bool(request)` with `is it authenticated`"""
+
+    def __bool__(self):
+        return False
+
+
+# The server-side context is whatever object the integration hands to dispatch(): nothing says it is truthy. Every flavour
+# builds a fresh object per call (identity is what is checked); 'object' is the customary truthy request object.
+CONTEXT_FLAVOURS = {
+    'empty-dict': dict, 'empty-list': list, 'empty-tuple': tuple, 'empty-set': set, 'empty-str': str, 'empty-bytes': bytes,
+    'zero': int, 'zero-float': float, 'false': bool, 'len-0-object': _Len0, 'bool-false-object': _BoolFalse,
+}
+FALSY_FLAVOURS = sorted(CONTEXT_FLAVOURS)
+
+
+def make_context(flavour, token):
+    if flavour == 'object':
+        return world.Context(token)
+    if flavour == 'none':
+        return None
+    return CONTEXT_FLAVOURS[flavour]()
+
+
+def flavour_stream(*program_args):
+    """the context flavour of each successive call of one program: a function of the (replayable) case arguments only.
+    Half of the calls keep the truthy object, 1 in 16 hands over None, the rest is spread over the falsy-but-real objects."""
+    import random
+    import zlib
+    rng = random.Random(zlib.crc32(repr(program_args).encode()))
+    while True:
+        r = rng.randrange(16)
+        yield 'object' if r < 8 else ('none' if r == 8 else rng.choice(FALSY_FLAVOURS))
 
 
 def signatures(max_params):
@@ -276,20 +334,49 @@ def run_program(ctx, sig, ctx_at, mode, style, annot=False, names=0, validator=N
     ctx.hit('style:' + style)
     env = dict(ns=ns, src=src, params=params, mode=mode, style=style, is_async=is_async, disp=disp,
                kinds_present=kinds_present, ctx_kind=ctx_kind)
+    flavours = flavour_stream(sig, ctx_at, mode, style, annot, names, validator)
     for case in param_cases(params):
         if (validator or '').startswith('pydantic') and any(not isinstance(v, (int, str)) for v in (case.values() if isinstance(case, dict) else case)):
             continue          # under a validating annotation only conforming values say anything about binding
-        judge_call(ctx, env, 'f', ns['g'], case, designated=mode in ('name', 'positional'))
+        judge_call(ctx, env, 'f', ns['g'], case, designated=mode in ('name', 'positional'), flavour=next(flavours))
         if mode == 'name':
             ctx.hit('dual-registration-calls')
             judge_call(ctx, env, 'f2', ns['g2'], case, designated=False)
 
 
-def judge_call(ctx, env, method_name, g, case, designated):
-    """one (program, method name, params) evaluation. `designated`: the method was registered with a context parameter."""
+class _Quiet:
+    """stands in for the run context when an evaluation is repeated for comparison only: nothing is counted"""
+
+    def hit(self, *a, **k):
+        pass
+
+    ok = skip = unjudge = hit
+
+
+def judge_call(ctx, env, method_name, g, case, designated, flavour='object'):
+    """one (program, method name, params) evaluation. `designated`: the method was registered with a context parameter.
+    `flavour`: which kind of object the server hands over as the context."""
+    ctx.hit('server-context:' + ('falsy' if flavour in CONTEXT_FLAVOURS else flavour))
+    if flavour in CONTEXT_FLAVOURS:
+        ctx.hit('server-context:' + flavour)
+    found = _evaluate(ctx, env, method_name, g, case, designated, flavour)
+    if found is None:
+        return
+    mechanism, fam, cls, wit = found
+    if flavour != 'object':
+        # the verdict stands as it is; only its NAME says whether the same call misbehaves with the customary truthy context
+        # object too (then the kind of context object has nothing to do with it)
+        ref = _evaluate(_Quiet(), env, method_name, g, case, designated, 'object')
+        if ref is None or ref[0] != mechanism:
+            mechanism = f'only-when-server-context-is-{"None" if flavour == "none" else "falsy"}:{mechanism}'
+    ctx.violation(mechanism, fam, cls, **wit)
+
+
+def _evaluate(ctx, env, method_name, g, case, designated, flavour):
+    """returns None (held / skipped / left unjudged - already counted on ctx) or the violation (mechanism, family, class, witness)"""
     ns, src, params, mode, style = env['ns'], env['src'], env['params'], env['mode'], env['style']
     is_async, disp, kinds_present, ctx_kind = env['is_async'], env['disp'], env['kinds_present'], env['ctx_kind']
-    CTX = world.Context(('c04', method_name))
+    CTX = make_context(flavour, ('c04', method_name))
     client_names_ctx = isinstance(case, dict) and 'ctx' in case and designated
     # ---- the twin: what would Python bind?
     ns['LOG'].clear()
@@ -311,35 +398,41 @@ def judge_call(ctx, env, method_name, g, case, designated):
     try:
         out = world.run(disp.dispatch(text, context=CTX)) if is_async else disp.dispatch(text, context=CTX)
     except Exception as e:
-        ctx.violation(f'dispatch-raises:{type(e).__name__}', 'dispatch', cls, source=src, params=case, exception=e)
-        return
+        return _v(f'dispatch-raises:{type(e).__name__}', 'dispatch', cls, source=src, params=case, exception=e)
     runs = [r for r in ns['LOG'] if r[0] == 'f']
     try:
         doc = strictjson.decode(out[0])
     except Exception:
-        ctx.violation('unreadable-response', 'dispatch', cls, source=src, params=case, returned=out)
-        return
+        return _v('unreadable-response', 'dispatch', cls, source=src, params=case, returned=out)
     code = doc['error']['code'] if 'error' in doc else 0
     used = _used_features(params, want_locals, case) if binds else _sig_features(kinds_present)
     fam = f'{mode}:{style}:' + ('named' if isinstance(case, dict) else 'positional') + ('' if method_name == 'f' else ':undesignated-twin-registration')
     wit = dict(source=src, mode=mode, style=style, method=method_name, params=case, response=doc,
-               executions=[_safe_run(r) for r in runs], twin=('binds ' + repr(want_locals)) if binds else 'TypeError')
+               executions=[_safe_run(r) for r in runs], twin=('binds ' + repr(want_locals)) if binds else 'TypeError',
+               server_context=f'{flavour}: {CTX!r}')
     # ---- context never foreign, never client-supplied
     bad_ctx = False
     if designated:
         for r in runs:
             if 'ctx' in r[1]:
                 ctx.hit('context-identity-checked')
+                if flavour in CONTEXT_FLAVOURS:
+                    ctx.hit('falsy-context-identity-checked:' + mode)
                 if r[1]['ctx'] is not CTX:
                     bad_ctx = True
     if mode.startswith('view'):
         for v, c in ns['VIEWS']:
             ctx.hit('context-identity-checked')
+            if flavour in CONTEXT_FLAVOURS:
+                ctx.hit('falsy-context-identity-checked:view')
             if c is not CTX:
                 bad_ctx = True
     if bad_ctx:
-        ctx.violation('context-parameter-not-the-server-context' + (':client-named-it' if client_names_ctx else ''),
-                      fam, cls, **wit)
+        return _v('context-parameter-not-the-server-context' + (':client-named-it' if client_names_ctx else ''),
+                  fam, cls, **wit)
+    if flavour == 'none' and (designated or mode.startswith('view')):
+        # is None a context object or the absence of one? The statement does not say: only "never a foreign context" is judged
+        ctx.unjudge('server-context-is-None')
         return
     if client_names_ctx:
         ctx.hit('client-names-context')
@@ -351,26 +444,25 @@ def judge_call(ctx, env, method_name, g, case, designated):
             ctx.hit('accepted:' + k)
         if len(runs) != 1:
             sym = 'bindable-call-not-executed' if not runs else 'executed-more-than-once'
-            ctx.violation(f'{sym}:code{code}:uses-{used}', fam, cls, **wit)
-            return
+            return _v(f'{sym}:code{code}:uses-{used}', fam, cls, **wit)
         got = {k: v for k, v in runs[0][1].items() if designated is False or k != 'ctx'}
         if not _same_locals(got, dict(want_locals)):
-            ctx.violation(f'executed-with-different-arguments:uses-{used}', fam, cls, **wit)
-            return
+            return _v(f'executed-with-different-arguments:uses-{used}', fam, cls, **wit)
         if 'result' not in doc or not typed_eq(doc['result'], _norm(want_ret)):
-            ctx.violation(f'result-differs-from-return-value:code{code}:uses-{used}', fam, cls, **wit)
-            return
+            return _v(f'result-differs-from-return-value:code{code}:uses-{used}', fam, cls, **wit)
         ctx.ok(fam + ':accepted', cls, sample={'source': src, 'method': method_name, 'params': case, 'response': doc})
     else:
         for k in kinds_present:
             ctx.hit('refused:' + k)
         if runs:
-            ctx.violation(f'unbindable-call-executed:sig-{used}', fam, cls, **wit)
-            return
+            return _v(f'unbindable-call-executed:sig-{used}', fam, cls, **wit)
         if code != -32602:
-            ctx.violation(f'unbindable-call-answered-code{code}:sig-{used}', fam, cls, **wit)
-            return
+            return _v(f'unbindable-call-answered-code{code}:sig-{used}', fam, cls, **wit)
         ctx.ok(fam + ':refused', cls, sample={'source': src, 'method': method_name, 'params': case, 'response': doc})
+
+
+def _v(mechanism, fam, cls, **wit):
+    return mechanism, fam, cls, wit
 
 
 def _safe_run(r):
